@@ -193,6 +193,111 @@ theorem center_stable (v : Int) (e : Rat) (he : |e| < 1 / 2) : Rat.floor ((v : R
   have := floor_stable ((v : Rat) + 1 / 2) e (1 / 2) (by rw [hf]) (by rw [hf]; linarith) he
   rw [this, hf]
 
+/-! ### round 2: the remaining public surface of the coordinate system -/
+
+/-- `coordinate_vector` is the linear part of `coordinate`: `coordinate(v + w) − coordinate(v) = coordinate_vector(w)`. -/
+theorem coordinate_vector_linear (cs : CS) (v w : List Rat) (hv : v.length = cs.dim.toNat) (hw : w.length = cs.dim.toNat) :
+    (do let c1 ← cs.coordinate (List.zipWith (· + ·) v w); let c0 ← cs.coordinate v
+        pure (List.zipWith (· - ·) c1 c0)) = cs.coordinateVector w := by
+  obtain ⟨am, ham, hwf⟩ := axis_map_wf cs.dim (mem_all _)
+  obtain ⟨_, hb⟩ := wf_bound hwf
+  simp only [CS.coordinate, CS.coordinateVector, ham, Except.map, bind, Except.bind, pure, Except.pure]
+  rw [coordinate_vector_linear_with cs am v w (fun pr hpr => ⟨by rw [hv]; exact hb pr hpr, by rw [hw]; exact hb pr hpr⟩)]
+
+/-- `num_voxels(length(n, axis), axis) = n` for every integer `n` and every Cartesian axis — in exact
+arithmetic (the float evaluation is not stable at the integral quotient, see `ceil_bridge`), and
+`num_voxels(L)` voxels cover the length `L` with less than one voxel to spare. -/
+theorem num_voxels_length (cs : CS) (hcs : cs.ok) (i : Nat) (hi : i < cs.dim.toNat) (n : Int) (L : Rat) :
+    (cs.length n i >>= fun len => cs.numVoxelsAx len i) = .ok n ∧
+    ∃ p k, cs.axisPos i = .ok p ∧ cs.numVoxelsAx L i = .ok k ∧ L ≤ (k : Rat) * cs.h p ∧ (k : Rat) * cs.h p < L + cs.h p := by
+  obtain ⟨am, ham, hwf⟩ := axis_map_wf cs.dim (mem_all _)
+  obtain ⟨hl, hb⟩ := wf_bound hwf
+  have hp : (listGetD am i (0, false)).1 < cs.dim.toNat := by
+    apply hb; unfold listGetD; rw [List.getElem?_eq_getElem (by rw [hl]; exact hi)]; exact List.getElem_mem _
+  have hh := CS.h_pos cs hcs _ hp
+  have hax : cs.axisPos i = .ok (listGetD am i (0, false)).1 := by
+    simp only [CS.axisPos, hi, if_true, ham, Except.map]
+  refine ⟨?_, _, _, hax, ?_, ceil_covers L _ hh⟩
+  · simp only [CS.length, CS.numVoxelsAx, hax, Except.map, bind, Except.bind, CS.numVoxels]
+    rw [ceil_int_mul_div n _ hh]
+  · simp only [CS.numVoxelsAx, hax, Except.map, CS.numVoxels]
+
+/-- float bridge for `ceil`: an error `|e| < δ` cannot change `⌈x⌉` when `x` is at least `δ` away from the integers
+below and at it from above; an integral `x` itself is a breakpoint. -/
+theorem ceil_bridge (x e δ : Rat) (hlo : ((x.ceil : Int) : Rat) - 1 + δ ≤ x) (hhi : x ≤ ((x.ceil : Int) : Rat) - δ)
+    (he : |e| < δ) : Rat.ceil (x + e) = Rat.ceil x := ceil_stable x e δ hlo hhi he
+
+/-- bounding box (`min_coordinate`, `max_coordinate`, `domain`): on Cartesian axis `i` with axis-map entry `(p, r)`
+the box is `[origin_i, origin_i + D_p]`, or `[origin_i − D_p, origin_i]` on reversed axes. -/
+theorem min_max_coordinate (cs : CS) (hcs : cs.ok) :
+    ∃ am, axisMap cs.dim = .ok am ∧
+      cs.minCoordinate = .ok (am.zipIdx.map fun q =>
+        if q.1.2 then listGetD cs.origin q.2 0 - listGetD cs.dims q.1.1 0 else listGetD cs.origin q.2 0) ∧
+      cs.maxCoordinate = .ok (am.zipIdx.map fun q =>
+        if q.1.2 then listGetD cs.origin q.2 0 else listGetD cs.origin q.2 0 + listGetD cs.dims q.1.1 0) := by
+  obtain ⟨am, ham, hwf⟩ := axis_map_wf cs.dim (mem_all _)
+  obtain ⟨h1, h2⟩ := min_max_with cs hcs am hwf
+  refine ⟨am, ham, ?_, ?_⟩
+  · simp only [CS.minCoordinate, CS.opposite, CS.coordinate, ham, Except.map]; rw [h1]
+  · simp only [CS.maxCoordinate, CS.opposite, CS.coordinate, ham, Except.map]; rw [h2]
+
+/-- every position of the image (`0 ≤ v_p ≤ N_p` on every matrix axis, fractional allowed) has its coordinate inside
+that box, component by component. -/
+theorem voxel_in_domain (cs : CS) (hcs : cs.ok) (v : List Rat)
+    (hv : ∀ p, p < cs.dim.toNat → 0 ≤ listGetD v p 0 ∧ listGetD v p 0 ≤ ((listGetD cs.shape p 0 : Nat) : Rat)) :
+    ∃ am, axisMap cs.dim = .ok am ∧ ∀ q ∈ am.zipIdx,
+      (if q.1.2 then listGetD cs.origin q.2 0 - listGetD cs.dims q.1.1 0 else listGetD cs.origin q.2 0) ≤ coordAx cs v q.2 q.1 ∧
+      coordAx cs v q.2 q.1 ≤ (if q.1.2 then listGetD cs.origin q.2 0 else listGetD cs.origin q.2 0 + listGetD cs.dims q.1.1 0) := by
+  obtain ⟨am, ham, hwf⟩ := axis_map_wf cs.dim (mem_all _)
+  obtain ⟨_, hb⟩ := wf_bound hwf
+  refine ⟨am, ham, ?_⟩
+  intro q hq
+  have hm : q.1 ∈ am := List.mem_of_getElem? (List.mem_zipIdx_iff_getElem?.mp hq)
+  exact coordAx_in_box cs hcs v q.2 q.1 (hb _ hm) (hv _ (hb _ hm)).1 (hv _ (hb _ hm)).2
+
+/-- `Voxel(x, matrix_indexing=False)` floors and reverses the component order; applied twice it is the plain `Voxel(x)`
+(likewise `VoxelCenter`). -/
+theorem matrix_indexing_false_involutive (xs : List Rat) :
+    mkVoxelRev (ratsOfInts (mkVoxelRev xs)) = mkVoxel xs ∧ mkCenterRev (mkCenterRev xs) = mkCenter xs ∧
+      mkVoxelRev xs = (mkVoxel xs).reverse :=
+  ⟨mkVoxelRev_involutive xs, mkCenterRev_twice xs, rfl⟩
+
+/-- `check_equal_coordinatesystems(cs, cs, ·)` returns `(True, [])` (with numpy's closeness test). -/
+theorem check_equal_refl (c : CS) (ex : Bool) : checkEqual c c ex = .ok (true, []) :=
+  checkEqualWith_refl npClose npClose_refl c ex
+
+/-- for coordinate systems of the same dimension the comparison is symmetric (result and failure log) whenever
+the closeness test is; numpy's `isclose` is reflexive but NOT symmetric (`|a − b| ≤ atol + rtol·|b|`):
+witness 1000 vs 1000.0100001 — so `check_equal_coordinatesystems(a, b)` and `(b, a)` can differ in a
+relative band of width 1e-10 around the tolerance (observation, not part of the property). -/
+theorem check_equal_symm_of_symm (close : Rat → Rat → Bool) (hs : ∀ x y, close x y = close y x) (c1 c2 : CS)
+    (hd : c1.dim = c2.dim) (ex : Bool) : checkEqualWith close c1 c2 ex = checkEqualWith close c2 c1 ex :=
+  checkEqualWith_symm close hs c1 c2 hd ex
+
+theorem npclose_not_symmetric :
+    npClose 1000 (10000100001 / 10000000) = true ∧ npClose (10000100001 / 10000000) 1000 = false := npClose_not_symm
+
+/-- HISTORY INDEPENDENCE: whatever happened to ONE image object before — conversions requested any number of times
+(`touch`), `reset_origin()`, assignments of `origin` / `dimensions`, in any order and number — the coordinate system
+it hands out afterwards is the one of its CURRENT fields: the geometry stays well formed, so every theorem of this
+file applies to it; in particular voxel zero maps to the current origin and voxel centres round-trip.
+(A coordinate system cached across a change of the origin violates exactly this.) -/
+theorem coordinatesystem_tracks_state (cs cs' : CS) (hcs : cs.ok) (ops : List GeomOp)
+    (hops : ∀ op ∈ ops, op.okFor cs.dim) (h : cs.applyOps ops = .ok cs') :
+    cs'.ok ∧ cs'.dim = cs.dim ∧ cs'.shape = cs.shape ∧
+      cs'.coordinate (List.replicate cs'.dim.toNat 0) = .ok cs'.origin ∧
+      ∀ v : List Int, v.length = cs'.dim.toNat → (cs'.coordinate (centerOf v) >>= cs'.voxel) = .ok v := by
+  obtain ⟨a, b, c⟩ := applyOps_ok ops cs cs' hcs hops h
+  exact ⟨a, b, c, coord_zero cs' a, fun v hv => center_roundtrip cs' a v hv⟩
+
+/-- `reset_origin()` puts the image into the box `[0, dimensions]` again, whatever its origin was. -/
+theorem reset_origin_default (cs cs' : CS) (h : cs.applyOp .resetOrigin = .ok cs') :
+    defaultOrigin cs.dim cs.dims = .ok cs'.origin ∧ cs'.dims = cs.dims ∧ cs'.shape = cs.shape ∧ cs'.dim = cs.dim := by
+  simp only [CS.applyOp] at h
+  cases hd : defaultOrigin cs.dim cs.dims with
+  | error e => rw [hd] at h; simp [Except.map] at h
+  | ok o => rw [hd] at h; simp only [Except.map] at h; injection h with h; subst h; exact ⟨rfl, rfl, rfl, rfl⟩
+
 /-! non-vacuity: a 3-D 3×1×5 system with non-default origin; voxel (−2, 0, 7) lies outside. -/
 def exCS : CS := ⟨.d3, [3, 1, 5], [3 / 2, 1 / 4, 10], [1000000, -7 / 3, 1 / 8]⟩
 
@@ -201,5 +306,13 @@ example : exCS.coordinate (centerOf [-2, 0, 7]) = .ok [1000000 + 1 / 8, -7 / 3 -
   decide +kernel
 example : (exCS.coordinate (centerOf [-2, 0, 7]) >>= exCS.voxel) = .ok [-2, 0, 7] := by decide +kernel
 example : exCS.opposite = .ok [1000000 + 1 / 4, -7 / 3 - 10, 1 / 8 - 3 / 2] := by decide +kernel
+
+example : exCS.minCoordinate = .ok [1000000, -7 / 3 - 10, 1 / 8 - 3 / 2] ∧ exCS.coordinateVector [1, 2, 3] = .ok [1 / 2, -6, -1 / 2] ∧
+    exCS.numVoxelsAx (7 / 5) 0 = .ok 6 := by decide +kernel
+example : checkEqual exCS { exCS with dims := [3, 1 / 4, 10] } false =
+    .ok (false, [.dimensions, .voxelSize, .oppositeVoxel]) := by decide +kernel
+
+example : (exCS.applyOps [.touch, .setOrigin [1, 2, 3], .touch, .resetOrigin, .touch]).toOption.map (·.origin) =
+    some [0, 10, 3 / 2] := by decide +kernel
 
 end Darsia.C01
